@@ -99,7 +99,7 @@ func genC36(seed uint64, tier string) *Case {
 	from := []string{"n1", "n2", "n3", "x4", "x5", "x6"}
 	n := g.Intn(9)
 	for i := 0; i < n; i++ {
-		c.Steps = append(c.Steps, Step{Op: "re", T: from[g.Intn(len(from))], S: []string{"own", "own", "other", "other", "nil", "malformed", "wrongtype", "empty"}[g.Intn(8)], F: g.Bool(0.12), K: g.Intn(3)})
+		c.Steps = append(c.Steps, Step{Op: "re", T: from[g.Intn(len(from))], S: []string{"own", "own", "other", "other", "nil", "malformed", "wrongtype", "empty", "sparse", "sparse"}[g.Intn(10)], F: g.Bool(0.12), K: g.Intn(3)})
 	}
 	return c
 }
@@ -143,6 +143,11 @@ func execC36(r *Run) {
 				om.Port = local.Port + 1
 			}
 			payload = encAny(mtConflictResponse, om)
+		case "sparse":
+			// a valid record that leaves address and port out: it names nobody's address,
+			// certainly not "the one of the previous reply"
+			payload = encAny(mtConflictResponse, map[string]any{"Name": nd.Name})
+			r.Fault("reply-with-omitted-fields")
 		case "nil":
 			payload = encAny(mtConflictResponse, (*serf.Member)(nil))
 		case "malformed":
@@ -182,7 +187,7 @@ func execC36(r *Run) {
 		case "own":
 			v++
 			m++
-		case "other", "nil":
+		case "other", "nil", "sparse":
 			v++
 		}
 	}
@@ -225,7 +230,7 @@ func genC23(seed uint64, tier string) *Case {
 	c.P["self"] = int64(g.Intn(2))
 	from := []string{"n1", "n2", "n3", "n0", "x9"}
 	for i := 0; i < g.Intn(8); i++ {
-		s := Step{Op: "re", T: from[g.Intn(len(from))], S: []string{"ok", "ok", "ok", "failed", "undecodable", "wrongtype", "empty"}[g.Intn(7)], K: g.Intn(3), F: g.Bool(0.1)}
+		s := Step{Op: "re", T: from[g.Intn(len(from))], S: []string{"ok", "ok", "ok", "failed", "undecodable", "wrongtype", "empty", "sparse", "sparse-empty"}[g.Intn(9)], K: g.Intn(3), F: g.Bool(0.1)}
 		for k := 0; k < g.Intn(4); k++ {
 			s.X = append(s.X, g.Intn(4))
 		}
@@ -289,6 +294,9 @@ func execC23(r *Run) {
 				wantKeys[k]++
 			}
 			wantPrim[prim]++
+		case "sparse":
+			// a well-formed successful reply that names no key and no primary key: it adds
+			// to no key's count (how the empty primary key is tallied is not a claim)
 		default:
 			nerr++
 		}
@@ -331,6 +339,14 @@ func execC23(r *Run) {
 			r.Fault("wrong-type-reply")
 		case "empty":
 			r.Fault("empty-reply")
+		case "sparse":
+			// records with fields left out decode fine (an older release, an encoder that
+			// omits empty fields): what is absent is absent, not "as in the previous reply"
+			payload = encAny(mtKeyResponse, map[string]any{"Result": true})
+			r.Fault("reply-with-omitted-fields")
+		case "sparse-empty":
+			payload = encAny(mtKeyResponse, map[string]any{})
+			r.Fault("reply-with-omitted-fields")
 		}
 		nd.Del.NotifyMsg(wEnc(mtQueryResponse, &wQueryResponse{LTime: q.LTime, ID: q.ID, From: s.T, Payload: payload}))
 		c.Wait()
